@@ -111,6 +111,18 @@ def check_spelling(cfg, node_long, spelling, suffix, out, heavy=False):
         if got_sw != exp_sw:
             out.bad("suffix-case-not-verbatim-on-second-lookup", f"{cfg}: after {text!r}, {ns + spelling + sw!r} gives "
                                                                  f"{got_sw} expected {exp_sw}")
+    # the schema's own accessor finds the same entry, the name given with or without the namespace prefix
+    if not suffix and hasattr(sch, "get_tag_entry"):
+        for name in (ns + spelling, spelling):
+            try:
+                ent = sch.get_tag_entry(name, schema_namespace=ns)
+            except Exception as exc:  # noqa
+                out.bad("schema-accessor-raises", f"{cfg}: get_tag_entry({name!r}, schema_namespace={ns!r}): {exc!r}")
+                break
+            if ent is None or ent.name != node.long:
+                out.bad("schema-accessor-differs", f"{cfg}: get_tag_entry({name!r}, schema_namespace={ns!r}) -> "
+                                                   f"{ent.name if ent else None!r} expected {node.long!r}")
+                break
     # a caseless-equal spelling whose length differs (sharp s for "ss"): same node, suffix still verbatim
     low = spelling.casefold()
     if suffix and "ss" in low:
@@ -196,6 +208,10 @@ def make_enum(configs):
                             seen.add(s)
                             yield (cfg, node.long, s, "")
                             yield (cfg, node.long, s, sfx)
+                            if node.placeholder is not None and fn is CASEFNS[next(iter(CASEFNS))]:
+                                # values in which a colon comes before a slash (URLs, ratios inside a path)
+                                yield (cfg, node.long, s, "/http://example.org/x.png")
+                                yield (cfg, node.long, s, "/r 1:2/t")
         return itertools.islice(gen(), shard, None, nshards)
     return enum
 
